@@ -11,6 +11,7 @@
 -/
 import Golib.HMap.LinkedStep
 import Golib.HMap.Types
+import Golib.HMap.Multi
 
 set_option linter.unusedSectionVars false
 
@@ -321,6 +322,24 @@ theorem set_entries (hash : K → Nat) (d : Desc K Unit) (m : LMap K Unit) (h : 
   induction l with
   | nil => rfl
   | cons e t ih => obtain ⟨a, u⟩ := e; cases u; simp only [AL.keys, List.map_cons, List.map_map] at ih ⊢; rw [← ih]
+
+/-! ### several live containers: no aliasing -/
+
+/-- **no_aliasing.**  In a pool of live maps an operation addressed to slot `i` leaves every other slot
+    exactly as it was, whatever the operation (containers are values in the model: "no shared storage" is the
+    specification; `ToObject(other.ToBytes())` is a sequence of puts of the source's entries into the
+    target).  Tie B keeps 1–3 live instances per history and compares all of them after every mutating op. -/
+theorem no_aliasing (hash : K → Nat) (thr : Nat → Nat) (d : Desc K V) (dflt : LMap K V)
+    (pool : Array (LMap K V)) (i k : Nat) (op : Op K V) (h : k ≠ i) :
+    (poolStep (LMap.step hash thr d) dflt pool i op).1.getD k dflt = pool.getD k dflt :=
+  poolStep_frame _ dflt pool i k op h
+
+/-- … and the addressed slot makes exactly the single-object step (so `refine_step` applies to it) -/
+theorem pool_target (hash : K → Nat) (thr : Nat → Nat) (d : Desc K V) (dflt : LMap K V)
+    (pool : Array (LMap K V)) (i : Nat) (op : Op K V) (h : i < pool.size) :
+    (poolStep (LMap.step hash thr d) dflt pool i op).1.getD i dflt = (LMap.step hash thr d (pool.getD i dflt) op).1 ∧
+    (poolStep (LMap.step hash thr d) dflt pool i op).2 = (LMap.step hash thr d (pool.getD i dflt) op).2 :=
+  poolStep_target _ dflt pool i op h
 
 /-! ### recorded deviations around empty string keys (D15) -/
 
